@@ -4956,6 +4956,16 @@ class QntRmUnusedMacro(Macro):
         if free_vars != r_vars:
             raise VeriTException("qnt_rm_unused", "after removing unused vars in lhs, \
                                     lhs and rhs still have different quantified variables")
+
+        def quantifiers(t):
+            res = []
+            while t.is_forall() or t.is_exists():
+                v, body = t.arg.dest_abs()
+                res.append((t.is_forall(), v))
+                t = body
+            return res
+        if [q for q in quantifiers(lhs) if q[1] in r_vars] != quantifiers(rhs):
+            raise VeriTException("qnt_rm_unused", "the kept quantifiers differ")
         
         return Thm(goal)    
 
